@@ -79,8 +79,10 @@ MUTANTS = [
      "        len_limit = _MAX_MSG_ABSOLUTE if self.allow_long else _MAX_MSG_TYPICAL\n"),
     ("c15-no-size-guard", "C15", "_listener.py",
      "        if data_len > _MAX_MSG_ABSOLUTE:", "        if data_len > 10 * _MAX_MSG_ABSOLUTE:"),
-    ("c15-echo-containment-removed", "C15", "_handlers/query_handler.py",
-     "            except NamePartTooLongException:", "            except ZeroDivisionError:"),
+    # (removing the NamePartTooLongException containment of the legacy-unicast echo became equivalent once the decoder
+    #  rejected names with a label that cannot be encoded again, bbcd09e; the decoder check is the mutant now)
+    ("c15-unencodable-label-accepted", "C15", "_protocol/incoming.py",
+     "        if not name.isascii():", "        if False and not name.isascii():"),
     ("c16-no-duplicate-guard", "C16", "_listener.py",
      "            self.data == data\n            and (now - _DUPLICATE_PACKET_SUPPRESSION_INTERVAL) < self.last_time",
      "            False\n            and (now - _DUPLICATE_PACKET_SUPPRESSION_INTERVAL) < self.last_time"),
